@@ -113,13 +113,15 @@ def replay(ctx, cases, variant):
 
 def run(ctx):
     # (M)
-    m = tlc.run("MCCheck", cfg="MCCheck.cfg" if ctx.quick else "MCCheckThorough.cfg", workers=TLC_WORKERS, timeout=1500, coverage=True)
+    m = tlc.run("MCCheck", cfg="MCCheck.cfg" if ctx.quick else "MCCheckThorough.cfg", workers=TLC_WORKERS, timeout=1500, coverage=not ctx.quick)
     ctx.add_tlc("MCCheck(strings over {0,1,80,FF} up to 5 bytes; SHA lengths 0..130; all piece sequences)", m, exhaustive=True)
     if m.violation:
         ctx.violation("model:" + m.violation, m.out[-4000:], dict(kind="tlc_counterexample"))
     for a in ("Update", "Finish"):
-        if m.coverage.get(a, (0, 0))[0] == 0:
+        if m.coverage and m.coverage.get(a, (0, 0))[0] == 0:
             raise MachineryError("MCCheck: action %s never taken (vacuous model)" % a)
+    if not m.violation and m.distinct < 10000:
+        raise MachineryError("MCCheck explored only %d states (vacuous model)" % m.distinct)
     ctx.log("MCCheck:", m.summary())
 
     # (G)
